@@ -73,7 +73,23 @@ fn gen_layer_block(src: &mut Src, f: &mut Flags) -> LefLayerGeometries {
     let mut geometries = vec![];
     for _ in 0..ng {
         let shape = match src.below(3) {
-            0 => LefShape::Rect(None, gen_pt(src, &mut f.fine), gen_pt(src, &mut f.fine)),
+            0 => {
+                // a rectangle may have no extent along one axis, or none at all (it is a shape all the same)
+                let p0 = gen_pt(src, &mut f.fine);
+                let mut p1_fine = false;
+                let mut p1 = gen_pt(src, &mut p1_fine);
+                let mode = src.weighted(&[8, 1, 1, 1]);
+                if !p1_fine {
+                    match mode {
+                        1 => p1.x = p0.x,
+                        2 => p1.y = p0.y,
+                        3 => p1 = p0.clone(),
+                        _ => {}
+                    }
+                }
+                f.fine |= p1_fine;
+                LefShape::Rect(None, p0, p1)
+            }
             1 => {
                 let n = src.usize_in(3, 6);
                 LefShape::Polygon(if src.prob(1, 6) { Some(LefMask::new(LefDecimal::new(2, 0))) } else { None }, (0..n).map(|_| gen_pt(src, &mut f.fine)).collect())
